@@ -160,6 +160,39 @@ def run(job):
                 msgs.append((m2, R.ref_encode(m2['json'])[0], msg_input(m2)))
             except R.RefError:
                 pass
+    # directed family: nested delayed replications whose inner count differs between the outer repetitions, zero in the FIRST one and
+    # not later (and the other way round): every repetition must be searched, whatever the first one holds
+    directed = 0
+    nested_ids = [[1001, 104000, 31001, 1002, 101000, 31001, 12001, 2001],
+                  [104000, 31001, 102000, 31001, 12001, 12002, 1001],
+                  [104003, 1001, 101000, 31001, 12001],
+                  [106000, 31001, 1001, 103000, 31001, 101000, 31001, 12001, 2001]]
+    for ids in nested_ids:
+        for pattern in ([2, 0, 2], [3, 0, 0, 1], [3, 0, 1, 2], [2, 2, 0], [2, 1, 1], [1, 0], [2, 0, 0]):
+            if ids[0] == 104003:
+                fac = (pattern[1:] + [1, 2, 0])[:3]
+            elif ids[0] == 106000:
+                # outer count, then per outer repetition: middle count, then per middle repetition an inner count
+                fac = [pattern[0]]
+                for c in pattern[1:pattern[0] + 1]:
+                    fac += [c] + [(0 if j == 0 else 2) for j in range(c)]
+            else:
+                fac = pattern[:1 + pattern[0]]
+            for comp in (False, True):
+                per = [(fac, [])] * 2 if comp else [(fac, []), (list(reversed(fac[1:])) and [fac[0]] + list(reversed(fac[1:])), [])]
+                try:
+                    fm = G.forced_message(rng, ids, per, compressed=comp)
+                except R.RefError:
+                    fm = None
+                if fm is None:
+                    continue
+                directed += 1
+                try:
+                    msgs.append((fm, R.ref_encode(fm['json'])[0], msg_input(fm)))
+                except R.RefError:
+                    pass
+    if directed < 20:
+        return {'error': 'directed nested-replication family could not be built (%d messages)' % directed}
     files = corpus_files()
     for f in (files[::16] if quick else files[::3]):
         data = read_first_message(f)
